@@ -1151,10 +1151,11 @@ func (g *pgen) insertProducer(ty Ty) (source, bool) {
 			}
 			pc := &Call{Id: fmt.Sprintf("%s_P%d", st.Name, len(g.pl.Calls)), Callee: st.Name}
 			g.inProducer = true
-			saveCfg := *g.cfg
+			saveCfg, saveReserved := *g.cfg, g.reserved
 			g.cfg.MapCalls, g.cfg.Disabled = false, false
 			g.genCallBindings(pc)
 			*g.cfg = saveCfg
+			g.reserved = saveReserved
 			g.inProducer = false
 			g.pl.Calls = append(g.pl.Calls, pc)
 			for _, s := range g.sources {
